@@ -236,8 +236,15 @@ def run(ctx):
         "input validity is filtered with GEOSisValid; result validity is GEOSisValid plus an exact light ring check (closed, >= 4 points, non-zero area, "
         "exact simplicity for rings of <= 80 points)",
         "input simplification, closing-segment factors, inverted-ring / hole removal and the precision-retry ladder are exercised, not modelled",
+        "translator tie (Props/C06Gen.lean): C++ double is an abstract carrier, instantiated with exact rationals (angles) or the binary64 value model "
+        "(parameter objects); (int) x = truncation, cos, Angle::sinCosSnap, std::isfinite are function parameters; the C API functions are translated as the "
+        "lambda they pass to `execute` (shape of `execute` checked textually: try { return f(); } catch → error value), up to the construction of "
+        "BufferOp / OffsetCurve / BufferBuilder; GEOSBuffer_r (Geometry::buffer → BufferOp::bufferOp) and GEOSBufferParams_create_r (`new`) are not translated",
     ])
-    proved = ctx.prove(PROPS, extra_targets=(DRV,))
+    # translator tie: BufferParameters (defaults, setters, getters), the OffsetSegmentGenerator constructor / init / addDirectedFillet, the
+    # OffsetCurve constructor and the C API parameter plumbing are regenerated from the current C++ (translate/specs/buffer_params.py) and
+    # proved equal to Model/Buffer/Params.lean / Fillet.lean (Props/C06Gen.lean); streams `params` and `fillet` exercise the same functions
+    proved = ctx.prove_generated([("buffer_params", "GeosModel/Generated/BufferParams.lean", "GeosModel.Props.C06Gen")], PROPS, extra_targets=(DRV,))
     ok, out = verif.build_geos("rel")
     if not ok:
         ctx.violation("GEOS does not build with -DGEOS_VERIF", {"kind": "build-failure", "log": out[-3000:]}, nofail=True)
